@@ -114,9 +114,9 @@ CHECKS["C04"] = dict(
     note=NH_NOTE + " Observation skew (save stamped late, egress stamped early) can only hide an ordering, never invent one.")
 CHECKS["C11"] = dict(
     engine="tlc+nhsim", category="exploration", design_ref="5 C11",
-    technique="TLA+ contract monitor (SMContract.tla) evaluated by TLC on Enter/Exit event streams of instrumented IStateMachine / IConcurrentStateMachine / IOnDiskStateMachine objects inside real NodeHosts",
-    text="Every user state machine method emits Enter/Exit events (sequence number under one mutex as first/last statement: an overlap in the trace is a real overlap). Scenarios: the nhsim fault mix, plus contract scenarios with two shards sharing one snapshot worker, slow SaveSnapshot/Sync/PrepareSnapshot, continuous local and exported snapshot requests, shard stop/restart while snapshot jobs are pending, power loss + restart so that lagging replicas are streamed snapshots, periodic Sync every 15 ticks, and NodeHost.Close while requests are in flight. TLC checks per object: exclusive group never overlaps and is never called after Close; plain SM readers never overlap writers; Update indexes strictly increasing, above the recovered snapshot / Open index; every entry that reached Update anywhere reaches every object whose life covers its index exactly once; same entry at the same index everywhere.",
-    note=NH_NOTE + " Exploration level: schedules are perturbed by seeded sleeps inside the callbacks, not enumerated.")
+    technique="TLA+ contract monitor (SMContract.tla) evaluated by TLC on Enter/Exit event streams of instrumented IStateMachine / IConcurrentStateMachine / IOnDiskStateMachine objects inside real NodeHosts; TLA+ life-cycle specification (Lifecycle.tla) model-checked exhaustively and every complete schedule TLC enumerates (sampled) replayed on the real exec engine through a gated nodeLoader (LifecycleTrace)",
+    text="Every user state machine method emits Enter/Exit events (sequence number under one mutex as first/last statement: an overlap in the trace is a real overlap). Scenarios: the nhsim fault mix, plus contract scenarios with two shards sharing one snapshot worker, slow SaveSnapshot/Sync/PrepareSnapshot, continuous local and exported snapshot requests, shard stop/restart while snapshot jobs are pending, power loss + restart so that lagging replicas are streamed snapshots, periodic Sync every 15 ticks, and NodeHost.Close while requests are in flight. TLC checks per object: exclusive group never overlaps and is never called after Close; plain SM readers never overlap writers; Update indexes strictly increasing, above the recovered snapshot / Open index; every entry that reached Update anywhere reaches every object whose life covers its index exactly once; same entry at the same index everywhere. Life cycle: Lifecycle.tla has one action per critical section of startShard / stopNode / loadBucketNodes / workerPool.loadNodes / node.offloaded / closeWorker.handle; MCLifecycle proves (828 states) that the user state machine is closed at most once and nothing leaks, refutes the model without the destroyed() guard, and enumerates all 250 284 complete schedules of Start / Collect(w) / Proceed(w) / Stop / CloseHandle for the step, apply and snapshot-pool workers; a seeded sample (240 quick, 6 000 thorough) is replayed on the real engine (real workers, close pool, rsm.StateMachine + NativeSM, instrumented user state machine) with the nodeLoader as scheduler gate; closed twice / called after Close / panic is the verdict.",
+    note=NH_NOTE + " Exploration level for the NodeHost scenarios: schedules are perturbed by seeded sleeps inside the callbacks, not enumerated. The life-cycle replay uses a skeleton node (no raft peer) and one replica object per schedule.")
 
 CHECKS["C16"] = dict(
     engine="tlc+nhsim", category="fault_enumeration", design_ref="5 C16",
@@ -187,6 +187,8 @@ def main():
              "kind_free_text": "TLC model checking (MCPipeline, MCClientHistory) + TLC evaluation (ClientHistoryTrace, PipelineTrace, SMContractTrace, SnapshotDirTrace, ImportTrace, NodeSafetyTrace, MemberTrace, CompactionTrace, QuiesceHostTrace, RequestsHostTrace) of event streams recorded from in-process clusters of real NodeHosts (harness/root/nhsim_*_test.go)"},
             {"name": "tlc+qssim/rlsim", "path": "/verif/lib/c17b.py", "serves_properties": ["C17"],
              "kind_free_text": "TLC model checking of MCQuiesce / MCRateLimit + TLC trace evaluation of the real quiesceState and InMemRateLimiter"},
+            {"name": "tlc+lcsim", "path": "/verif/lib/c11b.py", "serves_properties": ["C11"],
+             "kind_free_text": "TLC model checking of MCLifecycle, enumeration of its complete schedules, replay of a seeded sample on the real exec engine (harness/root/lcsim_test.go) judged by LifecycleTrace"},
             {"name": "tlc+smsim", "path": "/verif/lib/rsmchecks.py", "serves_properties": ["C05", "C08", "C07"],
              "kind_free_text": "TLC model checking of MCRSM + TLC trace validation (RSMTrace) of real rsm.StateMachine instances driven by harness/rsm/smsim_test.go"},
             {"name": "tlc+lssim", "path": "/verif/lib/logstore.py", "serves_properties": ["C09", "C10"],
